@@ -135,7 +135,7 @@ fn c09_function_scope() {
 }
 }
 
-// @harness id=c09_object_scope props=C09 tier=thorough cap=5400 mem=40
+// @harness id=c09_object_scope props=C09 tier=attempt cap=5400 mem=40
 // @desc Analyzer on `{ local L = E, [K]: V, F1: W, F2: null }` with symbolic names: the computed field name K is resolved in the OUTER scope (it sees neither L nor self), the local's value, and the field bodies see L; RepeatedFieldName iff the two fixed names F1 == F2; the first failing site in source order decides the error
 // @bound one template, 6 symbolic names over 4 identifiers
 // @funcs Analyzer::analyze_objinside, Analyzer::analyze_expr
@@ -175,7 +175,7 @@ fn c09_object_scope() {
 }
 }
 
-// @harness id=c09_comprehension_scope props=C09 tier=thorough cap=5400 mem=40
+// @harness id=c09_comprehension_scope props=C09 tier=attempt cap=5400 mem=40
 // @desc Analyzer on `[B for I in A1 for J in A2 if C]` with symbolic names: clauses bind left to right - A1 sees only the outer scope, A2 sees I, the condition and the body see I and J (a later binder may shadow an earlier one: no repetition error)
 // @bound one template, 6 symbolic names over 4 identifiers
 // @funcs Analyzer::analyze_comp_spec, Analyzer::analyze_expr (ArrayComp arm)
@@ -344,7 +344,7 @@ fn c09_positional_after_named() {
 }
 }
 
-// @harness id=c09_self_outside_object props=C09 tier=thorough cap=5400 mem=40
+// @harness id=c09_self_outside_object props=C09 tier=attempt cap=5400 mem=40
 // @desc Analyzer on `local a = (self | $ | super.a | "a" in super); null` outside any object, and on `{ [self|$]: null }` (computed field name of a top-level object): rejected with Self/Dollar/SuperOutsideObject even though the binding is never used; the same references inside a field body `{ a: (self | $ | super.a) }` are accepted
 // @bound 4 reference kinds x 3 positions
 // @funcs Analyzer::analyze_expr (SelfObj, Dollar, SuperField, InSuper arms), Analyzer::analyze_objinside
